@@ -230,4 +230,202 @@ theorem replaces_merge {sf : SFile} (a b : File) (level : Nat)
       · exact ⟨b, by simp, h.1⟩
       · exact ⟨a, by simp, h⟩ }
 
+/-! #### where the compactions act -/
+
+def logToIndex (f : File) : File := { isLog := false, level := 1, data := compactLogData f.data }
+
+theorem compactOldestLog_go_some (l l' : List File) (h : compactOldestLog.go l = some l') :
+    ∃ pre f post, l = pre ++ f :: post ∧ f.isLog = true ∧ l' = pre ++ logToIndex f :: post := by
+  induction l generalizing l' with
+  | nil => simp [compactOldestLog.go] at h
+  | cons f fs ih =>
+    unfold compactOldestLog.go at h
+    cases hg : compactOldestLog.go fs with
+    | some fs' =>
+      simp only [hg, Option.some.injEq] at h
+      obtain ⟨pre, f0, post, h1, h2, h3⟩ := ih fs' hg
+      exact ⟨f :: pre, f0, post, by rw [h1]; rfl, h2, by rw [← h, h3]; rfl⟩
+    | none =>
+      simp only [hg] at h
+      split at h
+      · next hl =>
+        simp only [Option.some.injEq] at h
+        exact ⟨[], f, fs, rfl, hl, by rw [← h]; rfl⟩
+      · simp at h
+
+theorem compactNewestLog_go_some (l l' : List File) (h : compactNewestLog.go l = some l') :
+    ∃ pre f post, l = pre ++ f :: post ∧ f.isLog = true ∧ l' = pre ++ logToIndex f :: post := by
+  induction l generalizing l' with
+  | nil => simp [compactNewestLog.go] at h
+  | cons f fs ih =>
+    unfold compactNewestLog.go at h
+    split at h
+    · next hl =>
+      simp only [Option.some.injEq] at h
+      exact ⟨[], f, fs, rfl, hl, by rw [← h]; rfl⟩
+    · cases hg : compactNewestLog.go fs with
+      | none => simp [hg] at h
+      | some fs' =>
+        simp only [hg, Option.map_some, Option.some.injEq] at h
+        obtain ⟨pre, f0, post, h1, h2, h3⟩ := ih fs' hg
+        exact ⟨f :: pre, f0, post, by rw [h1]; rfl, h2, by rw [← h, h3]; rfl⟩
+
+def mergedFile (level : Nat) (a b : File) : File :=
+  { isLog := false, level := level + 1, data := mergeData [a.data, b.data] }
+
+theorem mergeOldestTwo_some (level : Nat) (rev r : List File) (h : mergeOldestTwo level rev = some r) :
+    ∃ postRev b a preRev, rev = postRev ++ b :: a :: preRev ∧
+      r = postRev ++ mergedFile level a b :: preRev := by
+  induction rev generalizing r with
+  | nil => simp [mergeOldestTwo] at h
+  | cons b rest ih =>
+    unfold mergeOldestTwo at h
+    split at h
+    · cases hg : mergeOldestTwo level rest with
+      | none => simp [hg] at h
+      | some r' =>
+        simp only [hg, Option.map_some, Option.some.injEq] at h
+        obtain ⟨postRev, b0, a0, preRev, h1, h2⟩ := ih r' hg
+        exact ⟨b :: postRev, b0, a0, preRev, by rw [h1]; rfl, by rw [← h, h2]; rfl⟩
+    · split at h
+      · simp at h
+      · split at h
+        · next a rest' =>
+          split at h
+          · simp only [Option.some.injEq] at h
+            exact ⟨[], b, a, rest', rfl, by rw [← h]; rfl⟩
+          · simp at h
+        · simp at h
+
+/-- log-file compaction of a non-active log keeps the invariant. -/
+theorem pinv_logToIndex {exc : String → Prop} {sf : SFile} {live : List Nat} {i : Nat} {p : Partition}
+    (hp : PInvX exc sf live i p) (a : File) (pre : List File) (f : File) (post : List File)
+    (hfiles : p.files = a :: (pre ++ f :: post)) :
+    PInvX exc sf live i { p with files := a :: (pre ++ logToIndex f :: post) } := by
+  have hf : f ∈ p.files := by rw [hfiles]; simp
+  have := pinv_replace hp a pre [f] post (logToIndex f) (by rw [hfiles]; simp) (by simp)
+    (replaces_compactLog f (hp.noflags f hf) (hp.sound f hf))
+  simpa using this
+
+theorem pinv_compactOldestLog {exc : String → Prop} {sf : SFile} {live : List Nat} {i : Nat}
+    {p : Partition} (hp : PInvX exc sf live i p) :
+    PInvX exc sf live i { p with files := compactOldestLog p.files } := by
+  obtain ⟨a, rest, hfiles, _⟩ := hp.head
+  rw [hfiles]
+  unfold compactOldestLog
+  cases hg : compactOldestLog.go rest with
+  | none =>
+    simp only [hg, Option.getD_none]
+    have : ({ p with files := a :: rest } : Partition) = p := by rw [← hfiles]
+    rw [this]; exact hp
+  | some l' =>
+    simp only [hg, Option.getD_some]
+    obtain ⟨pre, f, post, h1, _, h3⟩ := compactOldestLog_go_some rest l' hg
+    rw [h3]
+    exact pinv_logToIndex hp a pre f post (by rw [hfiles, h1])
+
+theorem pinv_mergeTwo {exc : String → Prop} {sf : SFile} {live : List Nat} {i : Nat} {p : Partition}
+    (hp : PInvX exc sf live i p) (a0 : File) (pre : List File) (a b : File) (post : List File)
+    (level : Nat) (hfiles : p.files = a0 :: (pre ++ a :: b :: post)) :
+    PInvX exc sf live i { p with files := a0 :: (pre ++ mergedFile level a b :: post) } := by
+  have ha : a ∈ p.files := by rw [hfiles]; simp
+  have hb : b ∈ p.files := by rw [hfiles]; simp
+  have := pinv_replace hp a0 pre [a, b] post (mergedFile level a b) (by rw [hfiles]; simp) (by simp)
+    (replaces_merge a b (level + 1) (hp.noflags a ha) (hp.noflags b hb) (hp.sound a ha) (hp.sound b hb))
+  simpa using this
+
+theorem pinv_compactLevel {exc : String → Prop} {sf : SFile} {live : List Nat} {i : Nat}
+    {p : Partition} (hp : PInvX exc sf live i p) (level : Nat) :
+    PInvX exc sf live i { p with files := compactLevelFiles p.files level } := by
+  have hsame : ({ p with files := p.files } : Partition) = p := rfl
+  unfold compactLevelFiles
+  split
+  · exact hp
+  · obtain ⟨a0, rest, hfiles, _⟩ := hp.head
+    rw [hfiles]
+    simp only
+    cases hg : mergeOldestTwo level rest.reverse with
+    | none =>
+      simp only
+      have : ({ p with files := a0 :: rest } : Partition) = p := by rw [← hfiles]
+      rw [this]; exact hp
+    | some r =>
+      simp only
+      obtain ⟨postRev, b, a, preRev, h1, h2⟩ := mergeOldestTwo_some level rest.reverse r hg
+      have hrest : rest = preRev.reverse ++ a :: b :: postRev.reverse := by
+        have := congrArg List.reverse h1
+        simpa using this
+      have hr : r.reverse = preRev.reverse ++ mergedFile level a b :: postRev.reverse := by
+        rw [h2]; simp
+      rw [hr]
+      exact pinv_mergeTwo hp a0 preRev.reverse a b postRev.reverse level (by rw [hfiles, hrest])
+
+theorem pinv_settleStep {exc : String → Prop} {sf : SFile} {live : List Nat} {i : Nat}
+    {p : Partition} (hp : PInvX exc sf live i p) (fs : List File) (h : settleStep p.files = some fs) :
+    PInvX exc sf live i { p with files := fs } := by
+  unfold settleStep at h
+  cases hc : compactNewestLog p.files with
+  | some l =>
+    simp only [hc, Option.some.injEq] at h
+    subst h
+    obtain ⟨a, rest, hfiles, _⟩ := hp.head
+    rw [hfiles] at hc
+    unfold compactNewestLog at hc
+    cases hg : compactNewestLog.go rest with
+    | none => simp [hg] at hc
+    | some l' =>
+      simp only [hg, Option.map_some, Option.some.injEq] at hc
+      obtain ⟨pre, f, post, h1, _, h3⟩ := compactNewestLog_go_some rest l' hg
+      rw [← hc, h3]
+      exact pinv_logToIndex hp a pre f post (by rw [hfiles, h1])
+  | none =>
+    simp only [hc] at h
+    cases hl : [1, 2, 3, 4, 5, 6].find? (fun l => (mergeOldestTwo l p.files.tail.reverse).isSome) with
+    | none => simp [hl] at h
+    | some l =>
+      simp only [hl, Option.map_some, Option.some.injEq] at h
+      subst h
+      exact pinv_compactLevel hp l
+
+theorem pinv_settle {exc : String → Prop} {sf : SFile} {live : List Nat} {i : Nat} (fuel : Nat) :
+    ∀ {p : Partition}, PInvX exc sf live i p → PInvX exc sf live i { p with files := settle fuel p.files } := by
+  induction fuel with
+  | zero => intro p hp; exact hp
+  | succ n ih =>
+    intro p hp
+    unfold settle
+    cases hs : settleStep p.files with
+    | none => exact hp
+    | some fs =>
+      simp only
+      have h1 := pinv_settleStep hp fs hs
+      have h2 := ih h1
+      exact h2
+
+/-- **reopen** (`Index.Open`): log files are replayed, the series-id set is rebuilt from the
+    files, the background compaction runs to its fixpoint — nothing the invariant speaks of
+    changes. -/
+theorem pinv_reopen {exc : String → Prop} {sf : SFile} {live : List Nat} {i : Nat} {p : Partition}
+    (hp : PInvX exc sf live i p) : PInvX exc sf live i (p.reopen sf) := by
+  unfold Partition.reopen
+  simp only
+  -- replay reproduces every log file's content
+  have hmap : p.files.map (fun f => if f.isLog then { f with data := replay sf f.entries } else f) = p.files := by
+    have : ∀ f ∈ p.files, (if f.isLog then { f with data := replay sf f.entries } else f) = f := by
+      intro f hf
+      split
+      · next hl => rw [← hp.loginv f hf hl]
+      · rfl
+    conv => rhs; rw [← List.map_id p.files]
+    exact List.map_congr_left this
+  rw [hmap]
+  -- the rebuilt id set is the old one, as a set
+  have hp' : PInvX exc sf live i { p with sset := buildSeriesSet (p.files.map (·.data)) } := by
+    refine { hp with sset := ?_ }
+    intro x
+    rw [mem_buildSeriesSet]
+    exact hp.stat x
+  have := pinv_settle (8 * p.files.length + 8) hp'
+  exact this
+
 end Influx.Model.TSI
